@@ -128,13 +128,22 @@ def verify_lemma(idx):
         v = Verifier(repo, R)
         v.setup_path()
         v.target_name = "lemma:" + lem["name"]
-        goal = v.axiom_term(lem["vars"], lem["goal"], lem["assumes"])
-        bg = v.background()
-        # negated universally quantified goal: skolemised by z3
+        goal = z3.simplify(v.axiom_term(lem["vars"], lem["goal"], lem["assumes"]))
+        bg = v.background() if lem.get("background", True) else []
+        # negated universally quantified goal: skolemised by the solver
         o = Obligation("lemma:%s/lemma" % lem["name"], [], goal, "lemma", 0, {})
-        r = discharge(o, bg, timeout_ms=10000 if _G["tier"] == "quick" else 60000, seed=_G["seed"])
+        text = to_smt2(o, bg)
+        timeout = 10000 if _G["tier"] == "quick" else 60000
+        r = None
+        if "Val" not in text:
+            # pure string/integer lemma: cvc5 --strings-exp first (z3's sequence solver is unstable on these)
+            st, t2 = run_cvc5_text(text, timeout)
+            if st == "unsat":
+                r = Result(o.name, "proved", "cvc5", t2, "lemma", 0)
+        if r is None:
+            r = discharge_smt2(o.name, "lemma", 0, text, timeout_ms=timeout, seed=_G["seed"])
         d = r.to_json()
-        d["size"] = len(goal.sexpr())
+        d["size"] = len(text)
         out["results"].append(d)
     except Exception as e:
         out["error"] = "crash: %s\n%s" % (e, traceback.format_exc()[-1500:])
